@@ -29,7 +29,7 @@ func main() {
 		Props: map[string]sim.PropSpec{
 			"C03": {Run: runC03, Modes: []string{"any"}},
 			"C05": {Run: runC05, Modes: []string{"multi_split", "every_split", "multi_split", "dst_minimum", "multi_split"}},
-			"C07": {Run: runC07, Modes: []string{"valid"}},
+			"C07": {Run: runC07, Modes: []string{"valid", "valid", "hashers"}},
 			"C08": {Run: runC08, Modes: []string{"histories"}},
 			"C09": {Run: runC09, Modes: []string{"variants"}},
 		},
